@@ -12,7 +12,16 @@
     through the range variable" (go2lean_own.go) are left folds over
     `l.zipIdx` whose step replaces element `i`; they compute `l.map G`;
   * the conversions between the records of Model/Merge.lean (which the
-    translation is mapped onto) and those of Model/Calc.lean.
+    translation is mapped onto) and those of Model/Calc.lean;
+  * the write-back loops over two list levels (section "write-back loops":
+    `foldl_cursor_acc`, `foldl_cursor_via`, `foldl_fill`, `foldl_shadow`,
+    `foldl_inner_cursor`) and the search loop with a found pointer
+    (`forList_search`), generic; with them `Clone_eq`, `Negate_eq`, `Merge_eq`
+    (regenerated = Model/Merge.lean for summaries of any shape) and the closed
+    forms `round_eq`, `calcBase_eq`, `calcFinalSum_eq`, `rateTotalFor_eq` over
+    ANY reading of the primitives; their faithful reading is `Merge.calc*`
+    (`Calculate_body_faithful`), their `calcOps o` reading is in
+    Proofs/TaxTotalsCalc.lean.
 -/
 import GoblVerif.Generated.TaxTotalsSrc
 import GoblVerif.Proofs.GoSemList
@@ -78,6 +87,141 @@ theorem foldl_cursor_map {α : Type} (G : α → α) (l : List α) :
   have := foldl_cursor_gen G l [] []
   simpa using this
 
+
+/-! ## write-back loops over two list levels (generic; nothing here is about a particular package)
+
+The loops that go2lean_own.go emits for `for i, v := range C { … v.f = e … }` are
+left folds over `C.zipIdx` whose step ends in `C := C.set i v`.  Three shapes occur:
+
+* CURSOR LOOP (`foldl_cursor_via`, with an accumulator `foldl_cursor_acc`): the
+  state is `ψ C s` (a record that holds the container `C` and whatever else the
+  loop accumulates), the step replaces element `i` by `G s x` and moves the
+  accumulator to `H s x`; the result is `ψ (mapAcc G H s C) (C.foldl H s)`.
+* FILL LOOP (`foldl_fill`): the container was made with the length of the list
+  ranged over (`make([]*T, len(l))`) and element `i` is assigned (and read back)
+  in round `i`; the step equation is needed only for `i < C.length`.
+* INNER LOOP WITH WRITE-THROUGH (`foldl_shadow`): a loop nested in a cursor loop
+  updates its own container `c` and, after every write, the enclosing one
+  (`n := W n c`); since a later write at the same place wins (`hW`), the inner
+  loop is the fold on `c` alone, followed by one write.
+`foldl_comm` moves a fold along any change of representation of its state. -/
+
+/-- a fold commutes with a change of representation of its state -/
+theorem foldl_comm {C D X : Type} (ψ : D → C) (f : C → X → C) (g : D → X → D)
+    (h : ∀ d x, f (ψ d) x = ψ (g d x)) (l : List X) (d : D) :
+    l.foldl f (ψ d) = ψ (l.foldl g d) := by
+  induction l generalizing d with
+  | nil => rfl
+  | cons a l ih => simp only [List.foldl_cons, h, ih]
+
+/-- the list that a cursor loop with an accumulator leaves behind -/
+def mapAcc {α σ : Type} (G : σ → α → α) (H : σ → α → σ) : σ → List α → List α
+  | _, [] => []
+  | s, a :: l => G s a :: mapAcc G H (H s a) l
+
+theorem mapAcc_const {α σ : Type} (G : α → α) (H : σ → α → σ) (s : σ) (l : List α) :
+    mapAcc (fun _ => G) H s l = l.map G := by
+  induction l generalizing s with
+  | nil => rfl
+  | cons a l ih => simp [mapAcc, ih]
+
+/-- CURSOR LOOP WITH AN ACCUMULATOR -/
+theorem foldl_cursor_acc {C α σ : Type} (ψ : List α → σ → C) (step : C → α × Nat → C)
+    (G : σ → α → α) (H : σ → α → σ)
+    (h : ∀ acc s x i, step (ψ acc s) (x, i) = ψ (acc.set i (G s x)) (H s x))
+    (l pre post : List α) (s : σ) :
+    (l.zipIdx pre.length).foldl step (ψ (pre ++ l ++ post) s) = ψ (pre ++ mapAcc G H s l ++ post) (l.foldl H s) := by
+  induction l generalizing pre s with
+  | nil => simp [mapAcc]
+  | cons a l ih =>
+    simp only [List.zipIdx_cons, List.foldl_cons, mapAcc, h]
+    have h1 : (pre ++ a :: l ++ post).set pre.length (G s a) = (pre ++ [G s a]) ++ l ++ post := by simp
+    rw [h1]
+    have h2 := ih (pre ++ [G s a]) (H s a)
+    simp only [List.length_append, List.length_singleton] at h2
+    rw [h2]; simp
+
+theorem foldl_cursor_acc' {C α σ : Type} (ψ : List α → σ → C) (step : C → α × Nat → C)
+    (G : σ → α → α) (H : σ → α → σ)
+    (h : ∀ acc s x i, step (ψ acc s) (x, i) = ψ (acc.set i (G s x)) (H s x))
+    (l : List α) (s : σ) :
+    l.zipIdx.foldl step (ψ l s) = ψ (mapAcc G H s l) (l.foldl H s) := by
+  have := foldl_cursor_acc ψ step G H h l [] [] s
+  simpa using this
+
+/-- CURSOR LOOP (no accumulator) through a representation -/
+theorem foldl_cursor_via {C α : Type} (ψ : List α → C) (step : C → α × Nat → C) (G : α → α)
+    (h : ∀ acc x i, step (ψ acc) (x, i) = ψ (acc.set i (G x))) (l : List α) :
+    l.zipIdx.foldl step (ψ l) = ψ (l.map G) := by
+  have := foldl_cursor_acc' (σ := Unit) (fun a _ => ψ a) step (fun _ => G) (fun _ _ => ())
+    (fun acc _ x i => h acc x i) l ()
+  rw [mapAcc_const] at this
+  exact this
+
+/-- FILL LOOP: the container was made with the right length and every element is assigned -/
+theorem foldl_fill_gen {C α β : Type} (ψ : List α → C) (step : C → β × Nat → C) (F : β → α)
+    (h : ∀ acc x i, i < acc.length → step (ψ acc) (x, i) = ψ (acc.set i (F x)))
+    (l : List β) (pre init post : List α) (hlen : init.length = l.length) :
+    (l.zipIdx pre.length).foldl step (ψ (pre ++ init ++ post)) = ψ (pre ++ l.map F ++ post) := by
+  induction l generalizing pre init with
+  | nil =>
+    have : init = [] := List.eq_nil_of_length_eq_zero (by simpa using hlen)
+    simp [this]
+  | cons a l ih =>
+    match init, hlen with
+    | b :: init, hlen =>
+      simp only [List.zipIdx_cons, List.foldl_cons]
+      rw [h _ _ _ (by simp)]
+      have h1 : (pre ++ b :: init ++ post).set pre.length (F a) = (pre ++ [F a]) ++ init ++ post := by simp
+      rw [h1]
+      have h2 := ih (pre ++ [F a]) init (by simpa using hlen)
+      simp only [List.length_append, List.length_singleton] at h2
+      rw [h2]; simp
+
+theorem foldl_fill {C α β : Type} (ψ : List α → C) (step : C → β × Nat → C) (F : β → α)
+    (h : ∀ acc x i, i < acc.length → step (ψ acc) (x, i) = ψ (acc.set i (F x)))
+    (l : List β) (init : List α) (hlen : init.length = l.length) :
+    l.zipIdx.foldl step (ψ init) = ψ (l.map F) := by
+  have := foldl_fill_gen ψ step F h l [] init [] hlen
+  simpa using this
+
+/-- INNER LOOP THAT ALSO WRITES THE ENCLOSING CONTAINER -/
+theorem foldl_shadow {N C X : Type} (W : N → C → N) (hW : ∀ n a b, W (W n a) b = W n b)
+    (f : C → X → C) (step : N × C → X → N × C)
+    (h : ∀ n c x, step (n, c) x = (W n (f c x), f c x)) (l : List X) (n : N) (c : C) :
+    (l.foldl step (n, c)).2 = l.foldl f c ∧
+    (∀ d, W (l.foldl step (n, c)).1 d = W n d) ∧
+    (l.foldl step (W n c, c)).1 = W n (l.foldl f c) := by
+  induction l generalizing n c with
+  | nil => exact ⟨rfl, fun _ => rfl, rfl⟩
+  | cons a l ih =>
+    simp only [List.foldl_cons, h]
+    obtain ⟨i1, i2, i3⟩ := ih (W n (f c a)) (f c a)
+    refine ⟨i1, fun d => by rw [i2, hW], ?_⟩
+    rw [hW] at i3 ⊢
+    rw [i3, hW]
+
+
+/-- THE TWO-LEVEL PRINCIPLE: a cursor loop over `l` (the container of `ψ l`) nested in another
+    cursor loop.  Its state is (enclosing object `n`, own object `c`); every round replaces element
+    `j` of the own container by `G x` and writes the own object through (`W`).  The own object ends
+    as `ψ (l.map G)`; the enclosing one has received exactly that write when it held the own object
+    before the loop, and in any case a later write hides what the loop wrote. -/
+theorem foldl_inner_cursor {N C α : Type} (W : N → C → N) (hW : ∀ n a b, W (W n a) b = W n b)
+    (f : C → α × Nat → C) (step : N × C → α × Nat → N × C)
+    (h : ∀ n c p, step (n, c) p = (W n (f c p), f c p))
+    (ψ : List α → C) (G : α → α) (hf : ∀ acc x j, f (ψ acc) (x, j) = ψ (acc.set j (G x)))
+    (l : List α) (n : N) :
+    (l.zipIdx.foldl step (W n (ψ l), ψ l)).1 = W n (ψ (l.map G)) ∧
+    (l.zipIdx.foldl step (n, ψ l)).2 = ψ (l.map G) ∧
+    (∀ d, W (l.zipIdx.foldl step (n, ψ l)).1 d = W n d) := by
+  obtain ⟨h1, h2, h3⟩ := foldl_shadow W hW f step h l.zipIdx n (ψ l)
+  have hc := foldl_cursor_via ψ f G hf l
+  exact ⟨by rw [h3, hc], by rw [h1, hc], h2⟩
+
+theorem getBang_set {α : Type} [Inhabited α] (l : List α) (i : Nat) (a : α) (h : i < l.length) :
+    (l.set i a)[i]! = a := by
+  simp [h]
 
 /-! ## straight-line functions, for every reading of the primitives -/
 
@@ -220,5 +364,449 @@ theorem Negate_oneRow (cd : String) (ret : Bool) (r : RateTotal) (am : Amount) (
 
 theorem Negate_none [NumOps] : TaxTotalsSrc.Total_Negate none = none := by
   unfold TaxTotalsSrc.Total_Negate; simp [Id.run, id_pure]
+
+/-! ## `Clone`, `Negate` for summaries of any shape -/
+
+theorem Clone_inner (acc : List CategoryTotal) (s sp : Amount) (i : Nat) (hi : i < acc.length) (c0 : CategoryTotal)
+    (l : List RateTotal) (init : List RateTotal) (hlen : init.length = l.length) :
+    List.foldl
+      (fun (s : Total) (x_1 : RateTotal × Nat) =>
+        ({ categories :=
+            s.categories.set i
+              { code := s.categories[i]!.code, retained := s.categories[i]!.retained,
+                rates := s.categories[i]!.rates.set x_1.snd x_1.fst,
+                amount := s.categories[i]!.amount, surcharge := s.categories[i]!.surcharge,
+                amountP := s.categories[i]!.amountP },
+           sum := s.sum, sumP := s.sumP } : Total))
+      ⟨acc.set i { c0 with rates := init }, s, sp⟩ l.zipIdx
+    = ⟨acc.set i { c0 with rates := l }, s, sp⟩ := by
+  have := foldl_fill (fun rs => (⟨acc.set i { c0 with rates := rs }, s, sp⟩ : Total))
+    (fun (s : Total) (x_1 : RateTotal × Nat) =>
+        ({ categories :=
+            s.categories.set i
+              { code := s.categories[i]!.code, retained := s.categories[i]!.retained,
+                rates := s.categories[i]!.rates.set x_1.snd x_1.fst,
+                amount := s.categories[i]!.amount, surcharge := s.categories[i]!.surcharge,
+                amountP := s.categories[i]!.amountP },
+           sum := s.sum, sumP := s.sumP } : Total)) id
+    (by intro rs y j hj; simp [hi, List.set_set]) l init hlen
+  simpa using this
+
+theorem Clone_eq (t : Total) : TaxTotalsSrc.Total_Clone (some t) = some t := by
+  unfold TaxTotalsSrc.Total_Clone
+  simp only [forIn_list_id, pure_bind]
+  simp only [Id.run, id_pure, ite_yield_id, forList_fold, clone_eq, Int.toNat_natCast, Option.get!_some,
+    Option.isNone_some, Bool.false_eq_true, if_false]
+  rw [foldl_fill (fun cats => (⟨cats, default, default⟩ : Total)) _ id ?h t.categories _ (by simp)]
+  case h =>
+    intro acc x i hi
+    simp only [getBang_set, hi, List.set_set]
+    rcases x with ⟨cd, ret, rs, am, su, ap⟩
+    cases su with
+    | none =>
+      simp only [Option.isSome_none, Bool.false_eq_true, if_false]
+      exact Clone_inner acc default default i hi ⟨cd, ret, [], am, none, ap⟩ rs _ (by simp)
+    | some v =>
+      simp only [Option.isSome_some, if_true, Option.get!_some]
+      exact Clone_inner acc default default i hi ⟨cd, ret, [], am, some v, ap⟩ rs _ (by simp)
+  simp
+
+theorem Negate_eq (t : Total) : @TaxTotalsSrc.Total_Negate faithfulOps (some t) = some t.negate := by
+  unfold TaxTotalsSrc.Total_Negate
+  rw [Clone_eq]
+  simp only [forIn_list_id, pure_bind]
+  simp only [Id.run, id_pure, List.set_set, ite_yield_id, forList_fold, Option.get!_some,
+    Option.isNone_some, Bool.false_eq_true, if_false, f_negate]
+  rw [foldl_cursor_via (fun cats => (⟨cats, t.sum, t.sumP⟩ : Total)) _ CategoryTotal.negate ?h t.categories]
+  case h =>
+    intro acc x i
+    rcases x with ⟨cd, ret, rs, am, su, ap⟩
+    cases su <;>
+    · simp only [Option.isSome_none, Option.isSome_some, Bool.false_eq_true, if_false, if_true, Option.get!_some]
+      rw [(foldl_inner_cursor (N := Total) (C := CategoryTotal)
+        (fun n c => ⟨n.categories.set i c, n.sum, n.sumP⟩) (by intro n a b; simp [List.set_set])
+        (fun c p => { c with rates := c.rates.set p.2 p.1.negate }) _ ?h2
+        (fun rs' => ⟨cd, ret, rs', am.negate, _, ap.negate⟩) RateTotal.negate (by intro acc x j; rfl) rs ⟨acc, t.sum, t.sumP⟩).1]
+      case h2 =>
+        intro n c p
+        rcases p with ⟨⟨k, cn, e, b, pc, su, a⟩, j⟩
+        cases su <;> simp [RateTotal.negate]
+      simp [CategoryTotal.negate]
+  simp [Total.negate, Total.clone]
+
+/-! ## `Merge` for summaries of any shape: search loops with a found pointer -/
+
+/-- a loop that only updates its state, whatever the shape of its body -/
+theorem forList_eq_foldl {α β : Type} (f : α → β → ForInStep β) (g : β → α → β)
+    (h : ∀ x s, f x s = ForInStep.yield (g s x)) (l : List α) (init : β) :
+    forList f l init = l.foldl g init := by
+  have : f = fun x s => ForInStep.yield (g s x) := by funext x s; exact h x s
+  rw [this, forList_fold]
+
+/-- SEARCH LOOP WITH A FOUND POINTER: `for i, v := range l { if P v { p = v; break } }` from
+    `p = nil`: either nothing satisfies `P` and `p` stays nil, or `l = pre ++ m :: post` with `m` the
+    first element that satisfies `P`, `p = m` and the index is `pre.length` -/
+theorem forList_search {α : Type} (P : α → Prop) [DecidablePred P] (l : List α) (k : Nat) :
+    ((∀ x ∈ l, ¬ P x) ∧
+      forList (fun (p : α × Nat) (s : Option α × Option Nat) =>
+        if P p.1 then ForInStep.done (some p.1, some p.2) else ForInStep.yield (s.1, s.2)) (l.zipIdx k) (none, none)
+        = (none, none)) ∨
+    (∃ pre m post, l = pre ++ m :: post ∧ (∀ x ∈ pre, ¬ P x) ∧ P m ∧
+      forList (fun (p : α × Nat) (s : Option α × Option Nat) =>
+        if P p.1 then ForInStep.done (some p.1, some p.2) else ForInStep.yield (s.1, s.2)) (l.zipIdx k) (none, none)
+        = (some m, some (k + pre.length))) := by
+  induction l generalizing k with
+  | nil => left; exact ⟨by simp, rfl⟩
+  | cons a l ih =>
+    by_cases ha : P a
+    · right; exact ⟨[], a, l, rfl, by simp, ha, by simp [List.zipIdx_cons, forList, ha]⟩
+    · rcases ih (k + 1) with ⟨hno, hs⟩ | ⟨pre, m, post, hl, hpre, hm, hs⟩
+      · left
+        refine ⟨by intro x hx; rcases List.mem_cons.mp hx with rfl | hx; exact ha; exact hno x hx, ?_⟩
+        simp only [List.zipIdx_cons, forList, ha, if_false]; exact hs
+      · right
+        refine ⟨a :: pre, m, post, by simp [hl], ?_, hm, ?_⟩
+        · intro x hx; rcases List.mem_cons.mp hx with rfl | hx; exact ha; exact hpre x hx
+        · simp only [List.zipIdx_cons, forList, ha, if_false]; rw [hs]; simp; omega
+
+theorem mergeRate_none (l : List RateTotal) (rt : RateTotal) (h : ∀ x ∈ l, ¬ (x.matches rt = true)) :
+    mergeRate l rt = l ++ [rt] := by
+  induction l with
+  | nil => rfl
+  | cons a l ih =>
+    have ha : a.matches rt = false := by simpa using h a (by simp)
+    simp [mergeRate, ha, ih (fun x hx => h x (by simp [hx]))]
+
+theorem mergeRate_found (pre post : List RateTotal) (m rt : RateTotal) (h : ∀ x ∈ pre, ¬ (x.matches rt = true))
+    (hm : m.matches rt = true) : mergeRate (pre ++ m :: post) rt = pre ++ m.absorb rt :: post := by
+  induction pre with
+  | nil => simp [mergeRate, hm]
+  | cons a l ih =>
+    have ha : a.matches rt = false := by simpa using h a (by simp)
+    simp [mergeRate, ha, ih (fun x hx => h x (by simp [hx]))]
+
+theorem mergeCategory_none (l : List CategoryTotal) (ct : CategoryTotal) (h : ∀ x ∈ l, ¬ (x.code = ct.code)) :
+    mergeCategory l ct = l ++ [ct] := by
+  induction l with
+  | nil => rfl
+  | cons a l ih =>
+    have ha : ¬ a.code = ct.code := h a (by simp)
+    simp [mergeCategory, ha, ih (fun x hx => h x (by simp [hx]))]
+
+theorem mergeCategory_found (pre post : List CategoryTotal) (m ct : CategoryTotal) (h : ∀ x ∈ pre, ¬ (x.code = ct.code))
+    (hm : m.code = ct.code) : mergeCategory (pre ++ m :: post) ct = pre ++ m.absorb ct :: post := by
+  induction pre with
+  | nil => simp [mergeCategory, hm]
+  | cons a l ih =>
+    have ha : ¬ a.code = ct.code := h a (by simp)
+    simp [mergeCategory, ha, ih (fun x hx => h x (by simp [hx]))]
+
+theorem append_rates_fold (n : Total) (c : CategoryTotal) (l : List RateTotal) :
+    List.foldl (fun (s : Total × Option CategoryTotal) (x : RateTotal) =>
+      (s.fst, some ({ s.snd.get! with rates := s.snd.get!.rates ++ [x] } : CategoryTotal))) (n, some c) l
+    = (n, some { c with rates := c.rates ++ l }) := by
+  induction l generalizing c with
+  | nil => simp
+  | cons a l ih => simp [ih]
+
+/-- one round of the loop over the second operand's rates in the `else` branch of `Merge`, on the
+    state (result so far, found category): the category's rates take the rate in (`mergeRate`), and the
+    category is written back at its place `j` -/
+def mergeRateStep (j : Nat) (s : Total × Option CategoryTotal) (rt : RateTotal) : Total × Option CategoryTotal :=
+  (⟨s.1.categories.set j { s.2.get! with rates := mergeRate s.2.get!.rates rt }, s.1.sum, s.1.sumP⟩,
+    some { s.2.get! with rates := mergeRate s.2.get!.rates rt })
+
+theorem mergeRateStep_fold (j : Nat) (n : Total) (c : CategoryTotal) (l : List RateTotal) :
+    (l.foldl (mergeRateStep j) (⟨n.categories.set j c, n.sum, n.sumP⟩, some c)).1 =
+      ⟨n.categories.set j { c with rates := mergeRates c.rates l }, n.sum, n.sumP⟩ := by
+  have h3 := (foldl_shadow (N := Total) (C := Option CategoryTotal)
+    (fun n oc => ⟨n.categories.set j oc.get!, n.sum, n.sumP⟩) (by intro n a b; simp [List.set_set])
+    (fun oc rt => some { oc.get! with rates := mergeRate oc.get!.rates rt }) (mergeRateStep j)
+    (by intro n c x; rfl) l n (some c)).2.2
+  have hc := foldl_comm (fun rs => some ({ c with rates := rs } : CategoryTotal))
+    (fun (oc : Option CategoryTotal) rt => some { oc.get! with rates := mergeRate oc.get!.rates rt }) mergeRate
+    (by intro d x; rfl) l c.rates
+  simp only [Option.get!_some] at h3
+  rw [h3]
+  have hc' : List.foldl (fun (oc : Option CategoryTotal) rt => some { oc.get! with rates := mergeRate oc.get!.rates rt }) (some c) l
+      = some { c with rates := mergeRates c.rates l } := hc
+  rw [hc']; rfl
+
+theorem Merge_eq (t t2 : Total) : @TaxTotalsSrc.Total_Merge faithfulOps (some t) t2 = some (t.merge t2) := by
+  unfold TaxTotalsSrc.Total_Merge
+  rw [Clone_eq]
+  simp only [forIn_list_id, pure_bind]
+  simp only [Id.run, id_pure, ite_yield_id, forList_fold, Option.get!_some, f_add, clone_eq, Matches_eq]
+  rw [forList_eq_foldl _ (fun (nt : Total) ct => { nt with categories := mergeCategory nt.categories ct }) ?h]
+  case h =>
+    intro ct nt
+    rcases forList_search (fun (m : CategoryTotal) => m.code = ct.code) nt.categories 0 with
+      ⟨hno, hs⟩ | ⟨pre, m, post, hl, hpre, hm, hs⟩
+    · simp only [hs, Option.isNone_none, if_true, append_rates_fold]
+      rw [mergeCategory_none _ _ hno]
+      rcases ct with ⟨cd, ret, rs, am, su, ap⟩
+      cases su <;> simp
+    · simp only [hs, Option.isNone_some, Bool.false_eq_true, if_false, Option.get!_some, Nat.zero_add]
+      rcases ct with ⟨cd, ret, rs, am, su, ap⟩
+      rcases m with ⟨mcd, mret, mrs, mam, msu, map⟩
+      cases su <;> cases msu <;>
+      · simp only [Option.isSome_none, Option.isSome_some, Bool.false_eq_true, if_false, if_true, Option.get!_some]
+        rw [forList_eq_foldl _ (mergeRateStep pre.length) ?hb]
+        case hb =>
+          intro rt s
+          rcases forList_search (fun (m : RateTotal) => m.matches rt = true) s.snd.get!.rates 0 with
+            ⟨hno, hs⟩ | ⟨rpre, rm, rpost, hl, hpre, hm, hs⟩
+          · simp only [hs, Option.isNone_none, if_true, mergeRateStep]
+            rw [mergeRate_none _ _ hno]
+          · simp only [hs, Option.isNone_some, Bool.false_eq_true, if_false, Option.get!_some, Nat.zero_add]
+            simp only [List.set_set, mergeRateStep, hl, mergeRate_found rpre rpost rm rt hpre hm]
+            rcases rt with ⟨k1, c1, e1, b1, p1, rsu, a1⟩
+            rcases rm with ⟨k2, c2, e2, b2, p2, msu', a2⟩
+            cases rsu <;> cases msu' <;> simp [RateTotal.absorb]
+        try simp only [List.set_set]
+        rw [mergeRateStep_fold, hl, mergeCategory_found pre post _ _ hpre hm]
+        simp [CategoryTotal.absorb]
+  have hc := foldl_comm (fun cats => (⟨cats, t.sum, t.sumP⟩ : Total))
+    (fun (nt : Total) ct => { nt with categories := mergeCategory nt.categories ct }) mergeCategory
+    (by intro d x; rfl) t2.categories t.categories
+  have hc' : List.foldl (fun (nt : Total) ct => ({ nt with categories := mergeCategory nt.categories ct } : Total)) t t2.categories
+      = ⟨List.foldl mergeCategory t.categories t2.categories, t.sum, t.sumP⟩ := hc
+  rw [hc']
+  rfl
+
+/-! ## `round`, `calculateBaseCategoryTotal`, `calculateFinalSum`, `rateTotalFor`: what they compute, over ANY reading of the primitives -/
+
+/-- `Total.round` on one rate group, over any reading of the primitives -/
+def roundRateG [NumOps] (e : Nat) (rt : RateTotal) : RateTotal :=
+  { rt with
+    amount := NumOps.rescale rt.amount e
+    base := NumOps.rescale rt.base e
+    surcharge := rt.surcharge.map fun s => { s with amount := NumOps.rescale s.amount e } }
+
+/-- `Total.round` on one category -/
+def roundCatG [NumOps] (e : Nat) (ct : CategoryTotal) : CategoryTotal :=
+  { ct with
+    rates := ct.rates.map (roundRateG e)
+    amountP := ct.amount
+    amount := NumOps.rescale ct.amount e
+    surcharge := ct.surcharge.map (NumOps.rescale · e) }
+
+theorem round_eq [NumOps] (t : Total) (zero : Amount) :
+    TaxTotalsSrc.Total_round t zero =
+      ((), ⟨t.categories.map (roundCatG zero.exp), NumOps.rescale t.sum zero.exp, t.sum⟩) := by
+  unfold TaxTotalsSrc.Total_round
+  simp only [forIn_list_id, pure_bind]
+  simp only [Id.run, id_pure, List.set_set, ite_yield_id, forList_fold]
+  rw [foldl_cursor_via (fun cats => (⟨cats, t.sum, t.sumP⟩ : Total)) _ (roundCatG zero.exp) ?h t.categories]
+  case h =>
+    intro acc x i
+    dsimp only
+    generalize hR : List.foldl _ (_, x) x.rates.zipIdx = R
+    have h23 : R.2 = { x with rates := x.rates.map (roundRateG zero.exp) } ∧
+        ∀ d, (⟨R.1.categories.set i d, R.1.sum, R.1.sumP⟩ : Total) = ⟨acc.set i d, t.sum, t.sumP⟩ := by
+      rw [← hR]
+      exact (foldl_inner_cursor (N := Total) (C := CategoryTotal)
+        (fun n c => ⟨n.categories.set i c, n.sum, n.sumP⟩) (by intro n a b; simp [List.set_set])
+        (fun c p => { c with rates := c.rates.set p.2 (roundRateG zero.exp p.1) }) _
+        (by
+          intro n c p
+          rcases p with ⟨⟨k, cn, e, b, pc, su, a⟩, j⟩
+          cases su <;> simp [roundRateG])
+        (fun rs' => { x with rates := rs' }) (roundRateG zero.exp) (by intro acc x j; rfl) x.rates ⟨acc, t.sum, t.sumP⟩).2
+    simp only [h23.1, h23.2]
+    rcases x with ⟨cd, ret, rs, am, su, ap⟩
+    cases su <;> simp [roundCatG]
+
+/-- the rate part of `calculateBaseCategoryTotal`, over any reading of the primitives -/
+def rateAmountsG [NumOps] (zero : Amount) (rt : RateTotal) : RateTotal :=
+  match rt.percent with
+  | none => { rt with amount := zero }
+  | some p =>
+    { rt with
+      amount := NumOps.pctOf p rt.base
+      surcharge := rt.surcharge.map fun s => { s with amount := NumOps.pctOf s.percent rt.base } }
+
+/-- what one rate group adds to (category amount, category surcharge) in `calculateBaseCategoryTotal` -/
+def catAccG [NumOps] (zero : Amount) (rr : String) (s : Amount × Option Amount) (rt : RateTotal) : Amount × Option Amount :=
+  match rt.percent with
+  | none => s
+  | some p =>
+    (NumOps.add (TaxTotalsSrc.matchRoundingPrecision rr s.1 (NumOps.pctOf p rt.base)) (NumOps.pctOf p rt.base),
+     match rt.surcharge with
+     | none => s.2
+     | some su =>
+       some (NumOps.add (TaxTotalsSrc.matchRoundingPrecision rr (s.2.getD zero) (NumOps.pctOf su.percent rt.base))
+         (NumOps.pctOf su.percent rt.base)))
+
+/-- `calculateBaseCategoryTotal` on a category, over any reading of the primitives -/
+def calcCatG [NumOps] (zero : Amount) (rr : String) (ct : CategoryTotal) : CategoryTotal :=
+  { ct with
+    rates := ct.rates.map (rateAmountsG zero)
+    amount := (ct.rates.foldl (catAccG zero rr) (zero, none)).1
+    surcharge := (ct.rates.foldl (catAccG zero rr) (zero, none)).2 }
+
+theorem calcBase_eq [NumOps] (t : Total) (ct : CategoryTotal) (zero : Amount) (rr : String) :
+    TaxTotalsSrc.Total_calculateBaseCategoryTotal t ct zero rr = ((), calcCatG zero rr ct) := by
+  unfold TaxTotalsSrc.Total_calculateBaseCategoryTotal
+  simp only [forIn_list_id, pure_bind]
+  simp only [Id.run, id_pure, List.set_set, ite_yield_id, forList_fold]
+  rw [foldl_cursor_acc' (σ := Amount × Option Amount)
+    (fun rs s => (⟨ct.code, ct.retained, rs, s.1, s.2, ct.amountP⟩ : CategoryTotal)) _
+    (fun _ => rateAmountsG zero) (catAccG zero rr) ?h ct.rates (zero, none)]
+  case h =>
+    intro acc s x i
+    rcases x with ⟨k, cn, e, b, pc, su, a⟩
+    rcases s with ⟨s1, s2⟩
+    cases pc <;> cases su <;> cases s2 <;> simp [rateAmountsG, catAccG]
+  rw [mapAcc_const]; rfl
+
+/-- what one (calculated) category adds to the sum in `calculateFinalSum` -/
+def sumAccG [NumOps] (rr : String) (s : Amount) (ct : CategoryTotal) : Amount :=
+  if ct.retained = true then
+    match ct.surcharge with
+    | some x => NumOps.sub (NumOps.sub (TaxTotalsSrc.matchRoundingPrecision rr s ct.amount) ct.amount) x
+    | none => NumOps.sub (TaxTotalsSrc.matchRoundingPrecision rr s ct.amount) ct.amount
+  else
+    match ct.surcharge with
+    | some x => NumOps.add (NumOps.add (TaxTotalsSrc.matchRoundingPrecision rr s ct.amount) ct.amount) x
+    | none => NumOps.add (TaxTotalsSrc.matchRoundingPrecision rr s ct.amount) ct.amount
+
+theorem calcFinalSum_eq [NumOps] (t : Total) (zero : Amount) (rr : String) :
+    TaxTotalsSrc.Total_calculateFinalSum t zero rr =
+      ((), ⟨t.categories.map (calcCatG zero rr), (t.categories.map (calcCatG zero rr)).foldl (sumAccG rr) zero, t.sumP⟩) := by
+  unfold TaxTotalsSrc.Total_calculateFinalSum
+  simp only [forIn_list_id, pure_bind]
+  simp only [Id.run, id_pure, ite_yield_id, forList_fold, calcBase_eq]
+  rw [foldl_cursor_acc' (σ := Amount)
+    (fun cats s => (⟨cats, s, t.sumP⟩ : Total)) _
+    (fun _ => calcCatG zero rr) (fun s ct => sumAccG rr s (calcCatG zero rr ct)) ?h t.categories zero]
+  case h =>
+    intro acc s x i
+    generalize calcCatG zero rr x = y
+    rcases y with ⟨cd, ret, rs, am, su, ap⟩
+    cases ret <;> cases su <;> simp [sumAccG]
+  rw [mapAcc_const, List.foldl_map]
+
+/-- the row `newRateTotal` makes -/
+def newRT (c : TaxTotals.Combo) (zero : Amount) : RateTotal :=
+  { key := c.rate, country := c.country, ext := c.ext, base := zero, percent := c.percent,
+    surcharge := c.surcharge.map (fun s => { percent := s, amount := zero }), amount := zero }
+
+/-- `rateTotalFor` inside one category: the rates afterwards and the row the returned pointer aliases -/
+def locRates [NumOps] (c : TaxTotals.Combo) (zero : Amount) : List RateTotal → List RateTotal × RateTotal
+  | [] => ([newRT c zero], newRT c zero)
+  | rt :: rts =>
+    if TaxTotalsSrc.RateTotal_matches rt c = true then (rt :: rts, rt)
+    else ((rt :: (locRates c zero rts).1), (locRates c zero rts).2)
+
+/-- `rateTotalFor`: the categories afterwards and the row the returned pointer aliases -/
+def locCats [NumOps] (c : TaxTotals.Combo) (zero : Amount) : List CategoryTotal → List CategoryTotal × RateTotal
+  | [] => ([{ code := c.category, retained := c.retained, rates := [newRT c zero], amount := zero, surcharge := none,
+              amountP := zero }], newRT c zero)
+  | ct :: cts =>
+    if ct.code = c.category then ({ ct with rates := (locRates c zero ct.rates).1 } :: cts, (locRates c zero ct.rates).2)
+    else (ct :: (locCats c zero cts).1, (locCats c zero cts).2)
+
+theorem locRates_none [NumOps] (c : TaxTotals.Combo) (zero : Amount) (l : List RateTotal)
+    (h : ∀ x ∈ l, ¬ (TaxTotalsSrc.RateTotal_matches x c = true)) :
+    locRates c zero l = (l ++ [newRT c zero], newRT c zero) := by
+  induction l with
+  | nil => rfl
+  | cons a l ih =>
+    have ha : ¬ (TaxTotalsSrc.RateTotal_matches a c = true) := h a (by simp)
+    simp [locRates, ha, ih (fun x hx => h x (by simp [hx]))]
+
+theorem locRates_found [NumOps] (c : TaxTotals.Combo) (zero : Amount) (pre post : List RateTotal) (m : RateTotal)
+    (h : ∀ x ∈ pre, ¬ (TaxTotalsSrc.RateTotal_matches x c = true)) (hm : TaxTotalsSrc.RateTotal_matches m c = true) :
+    locRates c zero (pre ++ m :: post) = (pre ++ m :: post, m) := by
+  induction pre with
+  | nil => simp [locRates, hm]
+  | cons a l ih =>
+    have ha : ¬ (TaxTotalsSrc.RateTotal_matches a c = true) := h a (by simp)
+    simp [locRates, ha, ih (fun x hx => h x (by simp [hx]))]
+
+theorem locCats_none [NumOps] (c : TaxTotals.Combo) (zero : Amount) (l : List CategoryTotal)
+    (h : ∀ x ∈ l, ¬ (x.code = c.category)) :
+    locCats c zero l = (l ++ [⟨c.category, c.retained, [newRT c zero], zero, none, zero⟩], newRT c zero) := by
+  induction l with
+  | nil => rfl
+  | cons a l ih =>
+    have ha : ¬ (a.code = c.category) := h a (by simp)
+    simp [locCats, ha, ih (fun x hx => h x (by simp [hx]))]
+
+theorem locCats_found [NumOps] (c : TaxTotals.Combo) (zero : Amount) (pre post : List CategoryTotal) (m : CategoryTotal)
+    (h : ∀ x ∈ pre, ¬ (x.code = c.category)) (hm : m.code = c.category) :
+    locCats c zero (pre ++ m :: post) =
+      (pre ++ { m with rates := (locRates c zero m.rates).1 } :: post, (locRates c zero m.rates).2) := by
+  induction pre with
+  | nil => simp [locCats, hm]
+  | cons a l ih =>
+    have ha : ¬ (a.code = c.category) := h a (by simp)
+    simp [locCats, ha, ih (fun x hx => h x (by simp [hx]))]
+
+theorem rateTotalFor_eq [NumOps] (t : Total) (c : TaxTotals.Combo) (zero : Amount) :
+    TaxTotalsSrc.Total_rateTotalFor t c zero =
+      (some (locCats c zero t.categories).2, ⟨(locCats c zero t.categories).1, t.sum, t.sumP⟩) := by
+  unfold TaxTotalsSrc.Total_rateTotalFor
+  simp only [forIn_list_id, pure_bind]
+  simp only [Id.run, id_pure, newRateTotal_eq, newCategoryTotal_eq, Option.get!_some]
+  rcases forList_search (fun (m : CategoryTotal) => m.code = c.category) t.categories 0 with
+    ⟨hno, hs⟩ | ⟨pre, m, post, hl, hpre, hm, hs⟩
+  · simp only [hs, Option.isNone_none, if_true, List.zipIdx_nil, forList]
+    rw [locCats_none _ _ _ hno]
+    simp [newRT]
+  · simp only [hs, Option.isNone_some, Bool.false_eq_true, if_false, Option.get!_some, Nat.zero_add]
+    rw [hl, locCats_found _ _ _ _ _ hpre hm]
+    rcases forList_search (fun (r : RateTotal) => TaxTotalsSrc.RateTotal_matches r c = true) m.rates 0 with
+      ⟨rno, rs⟩ | ⟨rpre, rm, rpost, rl, rpreh, rmh, rs⟩
+    · simp only [rs, Option.isNone_none, if_true]
+      rw [locRates_none _ _ _ rno]
+      simp [newRT]
+    · simp only [rs, Option.isNone_some, Bool.false_eq_true, if_false]
+      rw [rl, locRates_found _ _ _ _ _ rpreh rmh]
+      simp only [← rl]
+      rcases t with ⟨cats, s, sp⟩
+      simp only at hl
+      rw [hl]
+
+/-! ## the closed forms read with the faithful operations = Model/Merge.lean -/
+
+theorem roundCatG_faithful (e : Nat) : @roundCatG faithfulOps e = Merge.roundCategory e := rfl
+
+theorem calcRate_fold (rr : String) (zero : Amount) (l : List RateTotal) (done : List RateTotal) (a : Amount) (s : Option Amount) :
+    l.foldl (Merge.calcRate (rr == "currency") zero) (done, a, s) =
+      (done ++ l.map (@rateAmountsG faithfulOps zero),
+        (l.foldl (@catAccG faithfulOps zero rr) (a, s)).1, (l.foldl (@catAccG faithfulOps zero rr) (a, s)).2) := by
+  induction l generalizing done a s with
+  | nil => simp
+  | cons x l ih =>
+    rcases x with ⟨k, cn, e, b, pc, su, am⟩
+    cases pc <;> cases su <;>
+      simp [Merge.calcRate, ih, rateAmountsG, catAccG, mrp_faithful, f_add, f_pctOf]
+
+theorem calcCatG_faithful (zero : Amount) (rr : String) (ct : CategoryTotal) :
+    @calcCatG faithfulOps zero rr ct = Merge.calcCategory (rr == "currency") zero ct := by
+  unfold Merge.calcCategory calcCatG
+  rw [calcRate_fold]; simp
+
+theorem sumStep_fold (rr : String) (zero : Amount) (l : List CategoryTotal) (done : List CategoryTotal) (a : Amount) :
+    l.foldl (Merge.calcSumStep (rr == "currency") zero) (done, a) =
+      (done ++ l.map (@calcCatG faithfulOps zero rr), (l.map (@calcCatG faithfulOps zero rr)).foldl (@sumAccG faithfulOps rr) a) := by
+  induction l generalizing done a with
+  | nil => simp
+  | cons x l ih =>
+    simp only [List.foldl_cons, List.map_cons, Merge.calcSumStep, ← calcCatG_faithful, ih]
+    generalize @calcCatG faithfulOps zero rr x = y
+    rcases y with ⟨cd, ret, rs, am, su, ap⟩
+    cases ret <;> cases su <;> simp [sumAccG, mrp_faithful, f_add, f_sub]
+
+/-- `calculateFinalSum` followed by `round` (the body of `Total.Calculate` after the nil test and the
+    zero of the currency), read with the faithful operations, is `Total.calculate` of Model/Merge.lean -/
+theorem Calculate_body_faithful (t : Total) (e : Nat) (rr : String) :
+    (@TaxTotalsSrc.Total_round faithfulOps (@TaxTotalsSrc.Total_calculateFinalSum faithfulOps t ⟨0, e⟩ rr).2 ⟨0, e⟩).2 =
+      t.calculate e (rr == "currency") := by
+  rw [@calcFinalSum_eq faithfulOps, @round_eq faithfulOps]
+  unfold Merge.Total.calculate
+  simp only [sumStep_fold, roundCatG_faithful, f_rescale, List.nil_append]
 
 end GoblVerif.Proofs.TaxTotalsSrc
